@@ -284,7 +284,33 @@ impl AnnotatedLexer<'_> {
         self.get_any()?.as_string()
     }
 
+    /// Is the lexer at the end of the file?
+    fn at_eof(&mut self) -> bool {
+        self.lexer.peek().is_none()
+    }
+
+    /// The token that stands in for the end of the file inside a statement.
+    ///
+    /// The end of the file ends a line: a statement that is cut off there is
+    /// reported exactly like a statement cut off by a newline, located just
+    /// after what was read of it.
+    fn end_of_file_token(&self) -> Token {
+        // The position just after the last character that was read
+        let mut end = *self.raw_token.range().end();
+        end.increment_column();
+        Token::new(
+            TokenType::Newline,
+            String::new(),
+            Range::new(end, end),
+            self.raw_token.file(),
+        )
+    }
+
     fn get_any(&mut self) -> Result<Token, LexError> {
+        // Only a statement that has not started yet may end at the end of the file
+        if self.raw_token != RawToken::default() && self.at_eof() {
+            return Ok(self.end_of_file_token());
+        }
         let item = self.lexer.next().ok_or(LexError::UnexpectedEOF)?;
         if let Ok(ref item) = item {
             if self.raw_token == RawToken::default() {
@@ -303,7 +329,7 @@ impl AnnotatedLexer<'_> {
     fn peek_any(&mut self) -> Result<Token, LexError> {
         match self.lexer.peek() {
             Some(item) => item.clone(),
-            None => Err(LexError::UnexpectedEOF),
+            None => Ok(self.end_of_file_token()),
         }
     }
 }
@@ -1004,6 +1030,9 @@ impl TryFrom<&mut Peekable<Lexer>> for ParserNode {
                             // not found
                             let mut values = Vec::new();
                             loop {
+                                if lex.at_eof() {
+                                    break;
+                                }
                                 let next = lex.peek_any()?;
                                 if let TokenType::Newline = next.token_type() {
                                     // consume newline
@@ -1032,6 +1061,10 @@ impl TryFrom<&mut Peekable<Lexer>> for ParserNode {
                             // macros are unsupported
                             // we will just ignore them until the we reach endmacro
                             loop {
+                                // An unterminated macro ends with the file
+                                if lex.at_eof() {
+                                    break;
+                                }
                                 let next = lex.get_any()?;
                                 if let TokenType::Directive(dir2) = next.token_type() {
                                     if let Ok(new_dir) = DirectiveToken::from_str(dir2) {
